@@ -210,6 +210,40 @@ def member_input(c, gen):
     return {"states": states, "recipes": recipes, "transitions": T}
 
 
+def fatal_exit(c, output, inflight, wal, member):
+    """The code under test calls logger.Fatal (os.Exit) in many places.  When the harness process dies that way it leaves no
+    result file but (a) the fatal log line of the aergo logger and (b) the list of cases it was executing: an observation on
+    the real code (the node exits while handling a request the model answers), reported as a violation."""
+    fatal = []
+    for l in output.splitlines():
+        if l.startswith('{"level":"fatal"'):
+            try:
+                fatal.append(json.loads(l))
+            except ValueError:
+                pass
+    if not fatal or not os.path.exists(inflight):
+        return False
+    cases = []
+    for k in json.load(open(inflight)):
+        part, _, n = k.partition(":")
+        n = int(n)
+        if part == "wal":
+            t = wal["transitions"][n]
+            cases.append({"case": k, "src": wal["states"][t["src"]], "act": t["act"], "dst": wal["states"][t["dst"]]})
+        elif part == "member":
+            t = member["transitions"][n]
+            cases.append({"case": k, "recipe": member["recipes"][t["src"]], "src": member["states"][t["src"]], "act": t["act"]})
+        else:
+            cases.append({"case": k})
+    f = fatal[-1]
+    acts = "; ".join(json.dumps(x["act"], sort_keys=True) for x in cases if "act" in x)[:900]
+    c.violation({"kind": "fatal-exit", "module": f.get("module"), "message": f.get("message")},
+                {"fatal": f, "in_flight": cases, "seed": c.seed, "tier": c.tier},
+                "the node process exits through logger.Fatal (module %s: %r) while handling one of %d requests in flight: %s"
+                % (f.get("module"), f.get("message"), len(cases), acts))
+    return True
+
+
 def run(c):
     rng = random.Random(c.seed)
     c.rule = ("a case is one transition (state, operation [+crash point], state') of the TLC-enumerated RaftWal / RaftMembership model replayed on "
@@ -240,6 +274,8 @@ def run(c):
         rc, output = vlib.go_test("./consensus/impl/raftv2/", "^TestVerifC16$",
                                   env={"VERIF_IN": inpath, "VERIF_OUT": outpath, "VERIF_TRACE": tracepath, "VERIF_SEED": c.seed,
                                        "VERIF_TIER": c.tier, "ARGLIB_LEVEL": "fatal"}, timeout=3000)
+        if not os.path.exists(outpath) and fatal_exit(c, output, outpath + ".inflight", wal, member):
+            return
         r = c.absorb_go(outpath, output)
         if rc != 0 and not r.get("violations"):
             raise vlib.Infra("harness failed:\n" + output[-3000:])
